@@ -95,7 +95,7 @@ impl Workload for Docs {
 pub fn run(ctx: &Ctx) -> i32 {
     let mut acc = Acc::new(ctx);
     let wl = Docs {
-        n: if ctx.quick() { 40_000 } else { 3_000_000 },
+        n: if ctx.quick() { 100_000 } else { 3_000_000 },
     };
     acc.pool(&wl, "c03", false);
     // Canary: a dangling $ref and a missing path parameter must be flagged.
